@@ -41,6 +41,7 @@ Fifth round: C05.1 acquire_identity is called by the placement loop only; C05.4 
 Sixth round: C05.6 the removal of stale identity groups is reached on every path of the loader, also when the store lists none.
 Seventh round: C05.4 a forced identity is taken out of the group's pool on every path on which it is set; C05.1 no iteration of the placement loop or of a pre-pass ends with an unplaced instance still holding an identity.
 Eighth round: C05.3 what a growing group adds to its free set is held by nobody - a routine that gives IdentityGroup.adjust a count that may be larger than the current one then discards, for every instance of the group, the identity it holds from the free set (F12: a shrink is acted on only by the next cycle, so growing again before it - or re-creating a group emptied while in use - re-offered identities still held; repaired in /repo).
+Tenth round: C05.6 the deletion of a group from the registry is decided by a walk over the instances that reference it - without such a walk the clause is violated (a pending instance references its group and holds nothing, so no count kept by the group can answer).
 Does NOT decide uniqueness over histories of count changes racing with
 restores (contents of sets over time).
 """
